@@ -239,3 +239,46 @@ func verifC11_ReloadServerFilter() {
 		verifCover("later-requests-served-from-the-route-cache")
 	}
 }
+
+// verifC11_PipelineUpdateBehindTheServer: the Pipeline an entry names is updated (or deleted)
+// in the traffic controller while the HTTPServer itself is not reloaded: the very next request
+// is handled by the new generation of the pipeline (503 once it is gone) - also for routes
+// that were served before and sit in the route cache.
+type vSwitchMapper struct {
+	current *vBackend // nil: the pipeline has been deleted
+}
+
+func (m *vSwitchMapper) GetHandler(name string) (context.Handler, bool) {
+	if name != "p" || m.current == nil {
+		return nil, false
+	}
+	return m.current, true
+}
+
+func verifC11_PipelineUpdateBehindTheServer() {
+	gen1, gen2 := &vBackend{status: 200}, &vBackend{status: 201}
+	mapper := &vSwitchMapper{current: gen1}
+	m := &mux{}
+	m.inst.Store(&muxInstance{spec: &Spec{}})
+	m.reload(vSuper(&Spec{CacheSize: uint32(verifChoose("cacheSize", 2) * 8), Rules: []*Rule{{Paths: []*Path{{PathPrefix: "/", Backend: "p"}}}}}), mapper)
+	serve := func() int {
+		w := &vWriter{hdr: http.Header{}}
+		std := &http.Request{Method: "GET", Host: "h", URL: &url.URL{Path: "/x"}, Header: http.Header{}, Body: &vReqBody{}, RemoteAddr: "9.9.9.9:1"}
+		m.ServeHTTP(w, std)
+		return w.status
+	}
+	for k := 0; k < 2; k++ {
+		verifAssert(serve() == 200 && gen1.calls == k+1, "served-by-the-current-generation")
+	}
+	if verifBool("pipelineDeleted") {
+		mapper.current = nil
+		verifAssert(serve() == 503 && gen1.calls == 2, "deleted-pipeline-is-not-served-any-more")
+		verifCover("pipeline-deleted")
+		return
+	}
+	mapper.current = gen2
+	verifAssert(serve() == 201 && gen2.calls == 1 && gen1.calls == 2, "new-requests-see-the-new-generation-of-the-pipeline")
+	if vCacheHits > 0 {
+		verifCover("route-was-cached")
+	}
+}
